@@ -45,6 +45,19 @@ type verifOrdered interface {
 	~int | ~int8 | ~int16 | ~int32 | ~int64 | ~uint | ~uint8 | ~uint16 | ~uint32 | ~uint64 | ~uintptr | ~float32 | ~float64 | ~string
 }
 
+// VerifYield is set by the verification harness: it is called before every statement that touches
+// package-level state which some function of the package modifies (VerifYieldSites such statements
+// exist in this build), so that a cooperative scheduler can switch instances exactly there.
+var VerifYield func(site string)
+
+const VerifYieldSites = %d
+
+func verifYield(site string) {
+	if VerifYield != nil {
+		VerifYield(site)
+	}
+}
+
 func verifMapKeys[K verifOrdered, V any](site string, m map[K]V) []K {
 	keys := make([]K, 0, len(m))
 	for k := range m {
@@ -75,7 +88,7 @@ func main() {
 		os.Exit(2)
 	}
 	overlay := map[string]string{}
-	sites, unresolved := 0, 0
+	sites, unresolved, yields := 0, 0, 0
 	for name, pkg := range pkgs {
 		var files []*ast.File
 		var names []string
@@ -83,11 +96,22 @@ func main() {
 			files = append(files, f)
 			names = append(names, fn)
 		}
-		info := &types.Info{Types: map[ast.Expr]types.TypeAndValue{}}
+		info := &types.Info{Types: map[ast.Expr]types.TypeAndValue{}, Uses: map[*ast.Ident]types.Object{}}
 		conf := types.Config{Importer: lenient{importer.Default()}, Error: func(error) {}}
-		_, _ = conf.Check(name, fset, files, info)
+		tpkg, _ := conf.Check(name, fset, files, info)
+		mutable := mutableGlobals(tpkg, info, files)
+		for v := range mutable {
+			fmt.Printf("mutable package-level state: %s\n", v.Name())
+		}
+		changedYield := make([]bool, len(files))
+		if len(mutable) > 0 {
+			reach := reachers(tpkg, info, files, mutable)
+			for i, f := range files {
+				changedYield[i] = insertYields(fset, f, tpkg, info, reach, &yields)
+			}
+		}
 		for i, f := range files {
-			changed := false
+			changed := changedYield[i]
 			ast.Inspect(f, func(n ast.Node) bool {
 				rs, ok := n.(*ast.RangeStmt)
 				if !ok {
@@ -146,11 +170,192 @@ func main() {
 			}
 		}
 		hp := filepath.Join(out, "verif_maporder.go")
-		_ = os.WriteFile(hp, []byte(fmt.Sprintf(helper, name)), 0o644)
+		_ = os.WriteFile(hp, []byte(fmt.Sprintf(helper, name, yields)), 0o644)
 		absdir, _ := filepath.Abs(dir)
 		overlay[filepath.Join(absdir, "verif_maporder.go")] = hp
 	}
 	b, _ := json.MarshalIndent(map[string]any{"Replace": overlay}, "", " ")
 	_ = os.WriteFile(filepath.Join(out, "overlay.json"), b, 0o644)
-	fmt.Printf("rewritten %d unresolved %d\n", sites, unresolved)
+	fmt.Printf("rewritten %d unresolved %d shared-state-yields %d\n", sites, unresolved, yields)
+}
+
+// rootIdent strips index, slice, selector, star and paren expressions down to the identifier the
+// expression is rooted in.
+func rootIdent(e ast.Expr) *ast.Ident {
+	for {
+		switch x := e.(type) {
+		case *ast.Ident:
+			return x
+		case *ast.IndexExpr:
+			e = x.X
+		case *ast.SliceExpr:
+			e = x.X
+		case *ast.SelectorExpr:
+			e = x.X
+		case *ast.StarExpr:
+			e = x.X
+		case *ast.ParenExpr:
+			e = x.X
+		default:
+			return nil
+		}
+	}
+}
+
+func pkgVar(tpkg *types.Package, info *types.Info, id *ast.Ident) *types.Var {
+	if id == nil || tpkg == nil {
+		return nil
+	}
+	v, ok := info.Uses[id].(*types.Var)
+	if !ok || v.Parent() != tpkg.Scope() {
+		return nil
+	}
+	return v
+}
+
+// mutableGlobals returns the package-level variables that some function body modifies: assigned to
+// (directly or through an index, slice, field or pointer), incremented, address taken, used as the
+// receiver of a method call (sync.Pool.Get/Put, bytes.Buffer.Write ...), or as the destination of
+// copy/append. Read-only tables and sentinel errors are not in the set.
+func mutableGlobals(tpkg *types.Package, info *types.Info, files []*ast.File) map[*types.Var]bool {
+	m := map[*types.Var]bool{}
+	mark := func(e ast.Expr) {
+		if v := pkgVar(tpkg, info, rootIdent(e)); v != nil {
+			m[v] = true
+		}
+	}
+	for _, f := range files {
+		for _, d := range f.Decls {
+			fd, ok := d.(*ast.FuncDecl)
+			if !ok || fd.Body == nil {
+				continue
+			}
+			ast.Inspect(fd.Body, func(n ast.Node) bool {
+				switch x := n.(type) {
+				case *ast.AssignStmt:
+					if x.Tok != token.DEFINE {
+						for _, l := range x.Lhs {
+							mark(l)
+						}
+					}
+				case *ast.IncDecStmt:
+					mark(x.X)
+				case *ast.UnaryExpr:
+					if x.Op == token.AND {
+						mark(x.X)
+					}
+				case *ast.CallExpr:
+					if se, ok := x.Fun.(*ast.SelectorExpr); ok {
+						if v := pkgVar(tpkg, info, rootIdent(se.X)); v != nil {
+							if _, isIface := v.Type().Underlying().(*types.Interface); !isIface {
+								m[v] = true // method call on a package-level value (not on an error/interface sentinel)
+							}
+						}
+					}
+					if id, ok := x.Fun.(*ast.Ident); ok && (id.Name == "copy" || id.Name == "append") && len(x.Args) > 0 {
+						mark(x.Args[0])
+					}
+				}
+				return true
+			})
+		}
+	}
+	return m
+}
+
+// reachers returns the functions of the package whose body mentions a mutable global, closed under
+// "is called by": a caller may hold a value that aliases the shared state after the callee returned
+// (a slice handed out by a pool, a pointer into a package-level table), so its statements are
+// interleaving points too.
+func reachers(tpkg *types.Package, info *types.Info, files []*ast.File, mutable map[*types.Var]bool) map[*ast.FuncDecl]bool {
+	decls := map[*types.Func]*ast.FuncDecl{}
+	var all []*ast.FuncDecl
+	for _, f := range files {
+		for _, d := range f.Decls {
+			if fd, ok := d.(*ast.FuncDecl); ok && fd.Body != nil {
+				all = append(all, fd)
+			}
+		}
+	}
+	// *types.Func of each declaration: found through the Defs-less route (name lookup in scope / method sets is
+	// overkill here): match by position of the name identifier
+	byPos := map[token.Pos]*ast.FuncDecl{}
+	for _, fd := range all {
+		byPos[fd.Name.Pos()] = fd
+	}
+	calls := map[*ast.FuncDecl][]*types.Func{}
+	in := map[*ast.FuncDecl]bool{}
+	for _, fd := range all {
+		ast.Inspect(fd.Body, func(n ast.Node) bool {
+			switch x := n.(type) {
+			case *ast.Ident:
+				if v := pkgVar(tpkg, info, x); v != nil && mutable[v] {
+					in[fd] = true
+				}
+				if fn, ok := info.Uses[x].(*types.Func); ok && fn.Pkg() == tpkg {
+					calls[fd] = append(calls[fd], fn)
+					if d, ok := byPos[fn.Pos()]; ok {
+						decls[fn] = d
+					}
+				}
+			}
+			return true
+		})
+	}
+	for changed := true; changed; {
+		changed = false
+		for _, fd := range all {
+			if in[fd] {
+				continue
+			}
+			for _, fn := range calls[fd] {
+				if d := decls[fn]; d != nil && in[d] {
+					in[fd] = true
+					changed = true
+					break
+				}
+			}
+		}
+	}
+	return in
+}
+
+// insertYields puts verifYield(site) before every statement of every function that can reach
+// package-level state some function modifies (see reachers).
+func insertYields(fset *token.FileSet, f *ast.File, tpkg *types.Package, info *types.Info, reach map[*ast.FuncDecl]bool, count *int) bool {
+	changed := false
+	rewrite := func(fn string, list []ast.Stmt) []ast.Stmt {
+		var out []ast.Stmt
+		for _, s := range list {
+			if _, isDecl := s.(*ast.DeclStmt); !isDecl {
+				pos := fset.Position(s.Pos())
+				site := fmt.Sprintf("%s:%d %s", filepath.Base(pos.Filename), pos.Line, fn)
+				call, _ := parser.ParseExpr(fmt.Sprintf("verifYield(%q)", site))
+				out = append(out, &ast.ExprStmt{X: call})
+				*count++
+				changed = true
+			}
+			out = append(out, s)
+		}
+		return out
+	}
+	for _, d := range f.Decls {
+		fd, ok := d.(*ast.FuncDecl)
+		if !ok || fd.Body == nil || !reach[fd] {
+			continue
+		}
+		fmt.Printf("yields in %s\n", fd.Name.Name)
+		ast.Inspect(fd.Body, func(n ast.Node) bool {
+			switch x := n.(type) {
+			case *ast.BlockStmt:
+				x.List = rewrite(fd.Name.Name, x.List)
+			case *ast.CaseClause:
+				x.Body = rewrite(fd.Name.Name, x.Body)
+			case *ast.CommClause:
+				x.Body = rewrite(fd.Name.Name, x.Body)
+			}
+			return true
+		})
+	}
+	return changed
 }
